@@ -391,12 +391,12 @@ theorem cacheOk_init (f : A → C → V) : CacheOk f (World.init : World A C V) 
 /-- **What a load returns is the placement of the content that the designated file has now** —
 the file that the (possibly relative) name designates under the working directory in force,
 whatever is in the (sound) cache, whatever `lru_cache` evicted or reordered. -/
-theorem load_reflects_current_content (resolve : String → String → String) (f : A → C → V)
+theorem load_reflects_current_content (resolve : Env → String → String) (f : A → C → V)
     (evict : Cache A V → Cache A V) (w : World A C V) (hok : CacheOk f w) (n : String) (a : A) :
     (step resolve f evict w (.load n a)).2
-      = some ((w.fs (resolve w.wd n)).map (fun file => f a file.content)) := by
+      = some ((w.fs (resolve w.env n)).map (fun file => f a file.content)) := by
   simp only [step, memoLoad]
-  cases hfs : w.fs (resolve w.wd n) with
+  cases hfs : w.fs (resolve w.env n) with
   | none => simp
   | some file =>
     cases hid : file.ident with
@@ -411,7 +411,7 @@ theorem load_reflects_current_content (resolve : String → String → String) (
         simp only at this
         simp [hid, hfind, this]
 
-theorem step_preserves (resolve : String → String → String) (f : A → C → V)
+theorem step_preserves (resolve : Env → String → String) (f : A → C → V)
     (evict : Cache A V → Cache A V) (hev : ∀ c e, e ∈ evict c → e ∈ c)
     (w : World A C V) (hok : CacheOk f w) (ev : Ev A C) :
     CacheOk f (step resolve f evict w ev).1 := by
@@ -485,10 +485,12 @@ theorem step_preserves (resolve : String → String → String) (f : A → C →
       · simp only [hqp, if_false] at hq
         exact hval q file hq hid
   | setwd d => exact ⟨h1, hu, h2⟩
+  | chdir d => exact ⟨h1, hu, h2⟩
+  | link p t => exact ⟨h1, hu, h2⟩
   | load n a =>
     simp only [step, memoLoad]
     refine ⟨h1, hu, ?_⟩
-    cases hfs : w.fs (resolve w.wd n) with
+    cases hfs : w.fs (resolve w.env n) with
     | none => exact h2
     | some file =>
       cases hid : file.ident with
@@ -504,7 +506,7 @@ theorem step_preserves (resolve : String → String → String) (f : A → C →
           · refine ⟨h1 _ file id hfs hid, ?_⟩
             intro q file' hq hid'
             simp only at hid'
-            have := hu q (resolve w.wd n) file' file id hq hfs hid' hid
+            have := hu q (resolve w.env n) file' file id hq hfs hid' hid
             subst this
             rw [hfs] at hq
             simp only [Option.some.injEq] at hq
@@ -515,7 +517,7 @@ theorem step_preserves (resolve : String → String → String) (f : A → C →
 /-- **For every history** of writes, removals, changes of working directory and loads, starting
 from a sound cache, the cached loader answers every load exactly as the uncached "read the
 designated file now and place it" does. -/
-theorem run_eq_runSpec (resolve : String → String → String) (f : A → C → V)
+theorem run_eq_runSpec (resolve : Env → String → String) (f : A → C → V)
     (evict : Cache A V → Cache A V) (hev : ∀ c e, e ∈ evict c → e ∈ c) (evs : List (Ev A C)) :
     ∀ (w : World A C V), CacheOk f w →
       run resolve f evict w evs = runSpec resolve f evict w evs := by
@@ -530,10 +532,12 @@ theorem run_eq_runSpec (resolve : String → String → String) (f : A → C →
     | write p c st => rfl
     | remove p => rfl
     | setwd d => rfl
+    | chdir d => rfl
+    | link p t => rfl
     | load n a => exact load_reflects_current_content resolve f evict w hok n a
 
 /-- … in particular from process start (empty cache, any number of rewrites between loads). -/
-theorem run_from_start (resolve : String → String → String) (f : A → C → V)
+theorem run_from_start (resolve : Env → String → String) (f : A → C → V)
     (evict : Cache A V → Cache A V) (hev : ∀ c e, e ∈ evict c → e ∈ c) (evs : List (Ev A C)) :
     run resolve f evict (World.init : World A C V) evs
       = runSpec resolve f evict World.init evs :=
@@ -548,11 +552,21 @@ example : run (fun _ n => n) (fun (a : Nat) (c : Nat) => a + c) (fun c => c.take
 
 -- a relative name under a working directory, with a same-named bystander under the current
 -- directory: the designated file is the one under the working directory, and its rewrite is seen
-example : run (fun wd n => if wd = "/w" ∧ n = "d/s" then "/w/d/s" else "cwd/d/s")
+example : run (fun env n => if env.wd = "/w" ∧ n = "d/s" then "/w/d/s" else "cwd/d/s")
     (fun (a : Nat) (c : Nat) => a + c) (fun c => c) World.init
     [.write "cwd/d/s" 7 true, .write "/w/d/s" 10 true, .setwd "/w", .load "d/s" 1,
      .write "/w/d/s" 20 true, .load "d/s" 1]
     = [none, none, none, some (some 11), none, some (some 21)] := by decide
+
+-- a name that is a symbolic link, re-pointed between two loads, and a relative name after the process changed
+-- directory: each load reads the file the name designates at that moment (`run_eq_runSpec` for every `resolve`)
+example : run (fun env n => match env.links.lookup n with
+                            | some t => t
+                            | none => if env.cwd = "b" then "b/x" else "a/x")
+    (fun (a : Nat) (c : Nat) => a + c) (fun c => c) World.init
+    [.write "a/x" 10 true, .write "b/x" 20 true, .link "L" "a/x", .load "L" 1, .link "L" "b/x", .load "L" 1,
+     .load "x" 1, .chdir "b", .load "x" 1]
+    = [none, none, none, some (some 11), none, some (some 21), some (some 11), none, some (some 21)] := by decide
 
 /-- counter-witness for the code before the repair (`lru_cache` keyed on the arguments only): a
 file rewritten between two loads is served stale -/
